@@ -381,6 +381,9 @@ def base2(ctx, prog, cfg):
                 if bd is None:
                     continue
                 leaves_ok = True
+                from .. import lenrule as _lr
+
+                bd = _lr.norm_len(mir.strip_casts(bd))  # len(split_at(s, k).1) is len(s) - k, etc.
                 for s in mir.walk(bd):
                     if isinstance(s, tuple) and s and s[0] == "load":
                         leaves_ok = False
